@@ -864,6 +864,18 @@ func selectionUnderPresence(f *ssa.Function, at ssa.Instruction, sel ssa.Value) 
 					}) {
 						if precedes(a, ret) {
 							done = true
+							// a copy into the result after the intersection puts the raw selection back
+							allInstrs(hf, func(i2 ssa.Instruction) {
+								c2, isC2 := i2.(*ssa.Call)
+								if !isC2 {
+									return
+								}
+								if b2, isB2 := c2.Call.Value.(*ssa.Builtin); isB2 && b2.Name() == "copy" && len(c2.Call.Args) == 2 {
+									if (sameExpr(c2.Call.Args[0], ret.Results[0]) || isLoadOf(ret.Results[0], c2.Call.Args[0])) && !precedes(i2, a) {
+										done = false
+									}
+								}
+							})
 						}
 					}
 					// … or word by word: res[i] = x & fill[i], every stored word an AND with a word of
